@@ -27,13 +27,15 @@ impl std::ops::SubAssign<Duration> for Instant { fn sub_assign(&mut self, d: Dur
 
 
 pub const SLOTS: usize = 2;
-pub struct HashMap<K, V> { pub slots: [Option<(K, V)>; SLOTS] }
+/// `others`: how many further keys are tracked beyond the two slots the model keeps (their contents never influence a step for
+/// the slots' keys; their *number* is visible through `len()`, so code that acts on the size of the map is analysed for every size)
+pub struct HashMap<K, V> { pub slots: [Option<(K, V)>; SLOTS], pub others: usize }
 /// std's entry API: the slot of the key if present, else a free slot
 pub enum Entry<'a, K, V> { Occupied(OccupiedEntry<'a, K, V>), Vacant(VacantEntry<'a, K, V>) }
 pub struct OccupiedEntry<'a, K, V> { map: &'a mut HashMap<K, V>, idx: usize }
 pub struct VacantEntry<'a, K, V> { map: &'a mut HashMap<K, V>, key: K }
 impl<K: Eq + Copy, V> HashMap<K, V> {
-    pub fn new() -> Self { HashMap { slots: [None, None] } }
+    pub fn new() -> Self { HashMap { slots: [None, None], others: 0 } }
     pub fn entry(&mut self, key: K) -> Entry<'_, K, V> {
         let mut found: Option<usize> = None;
         let mut i = 0;
@@ -46,7 +48,7 @@ impl<K: Eq + Copy, V> HashMap<K, V> {
             None => Entry::Vacant(VacantEntry { map: self, key }),
         }
     }
-    pub fn len(&self) -> usize { self.slots.iter().filter(|s| s.is_some()).count() }
+    pub fn len(&self) -> usize { self.slots.iter().filter(|s| s.is_some()).count() + self.others }
     pub fn get(&self, key: &K) -> Option<&V> {
         for s in self.slots.iter() { if let Some((k, v)) = s { if k == key { return Some(v); } } }
         None
@@ -57,6 +59,10 @@ impl<K: Eq + Copy, V> HashMap<K, V> {
             let keep = match s { Some((k, v)) => f(k, v), None => true };
             if !keep { *s = None; }
         }
+        // any number of the keys outside the model's slots may go as well
+        let left: usize = kani::any();
+        kani::assume(left <= self.others);
+        self.others = left;
     }
 }
 impl<'a, K: Eq + Copy, V> OccupiedEntry<'a, K, V> {
